@@ -101,6 +101,8 @@ struct Scenario {
     use_iter: bool,
     /// Some(k): issue the query once before and drop its result objects after k elements
     abandon_after: Option<usize>,
+    /// 0: ok stream then error stream, 1: error stream first, 2: ok stream dropped unread, 3: error stream dropped unread
+    consume: u8,
     merges: Vec<(u64, u64)>,
 }
 
@@ -133,7 +135,7 @@ fn gen_scenario(rng: &mut Rng, small: bool) -> Scenario {
             }
         }
     }
-    Scenario { merges, shards, stored, foreign, owned_ids, owned, cls: if rng.chance(0.15) { nclasses as u64 } else { rng.usize(nclasses) as u64 }, only_baked: rng.chance(0.4), use_iter: rng.chance(0.5), abandon_after: if rng.chance(0.15) { Some(rng.usize(4)) } else { None } }
+    Scenario { merges, shards, stored, foreign, owned_ids, owned, cls: if rng.chance(0.15) { nclasses as u64 } else { rng.usize(nclasses) as u64 }, only_baked: rng.chance(0.4), use_iter: rng.chance(0.5), abandon_after: if rng.chance(0.15) { Some(rng.usize(4)) } else { None }, consume: *rng.pick(&[0u8, 0, 0, 1, 1, 2, 3]) }
 }
 
 fn store_snaps(st: &Store, shards: usize) -> Vec<Snap> {
@@ -152,6 +154,8 @@ struct RunOut {
     err: Vec<(u64, u64, u64)>,
     bad_err: Option<String>,
     store_after: Vec<Snap>,
+    ok_read: bool,
+    err_read: bool,
 }
 
 fn run_query(env: &Env, sc: &Scenario, allow_abandon: bool) -> (RunOut, Vec<Snap>, Vec<Snap>) {
@@ -179,8 +183,30 @@ fn run_query(env: &Env, sc: &Scenario, allow_abandon: bool) -> (RunOut, Vec<Snap
         drop(err_a);
     }
     let (ok_h, err_h) = if sc.owned { st.owned_track_distances(&sc.owned_ids, sc.cls, sc.only_baked) } else { st.foreign_track_distances(sc.foreign.iter().map(|s| lib_track(env, s)).collect(), sc.cls, sc.only_baked) };
-    let oks: Vec<_> = if sc.use_iter { ok_h.into_iter().collect() } else { ok_h.all() };
-    let errs: Vec<_> = if sc.use_iter { err_h.into_iter().collect() } else { err_h.all() };
+    // the two streams are independent objects: they may be read in either order, and a caller interested in only one of
+    // them may drop the other one unread at once (while workers are still answering)
+    let (oks, errs, ok_read, err_read) = match sc.consume {
+        1 => {
+            let e: Vec<_> = if sc.use_iter { err_h.into_iter().collect() } else { err_h.all() };
+            let o: Vec<_> = if sc.use_iter { ok_h.into_iter().collect() } else { ok_h.all() };
+            (o, e, true, true)
+        }
+        2 => {
+            drop(ok_h);
+            let e: Vec<_> = if sc.use_iter { err_h.into_iter().collect() } else { err_h.all() };
+            (vec![], e, false, true)
+        }
+        3 => {
+            drop(err_h);
+            let o: Vec<_> = if sc.use_iter { ok_h.into_iter().collect() } else { ok_h.all() };
+            (o, vec![], true, false)
+        }
+        _ => {
+            let o: Vec<_> = if sc.use_iter { ok_h.into_iter().collect() } else { ok_h.all() };
+            let e: Vec<_> = if sc.use_iter { err_h.into_iter().collect() } else { err_h.all() };
+            (o, e, true, true)
+        }
+    };
     let mut ok: Vec<Row> = oks.iter().map(|e| (e.from, e.to, e.attribute_metric.map(|v| v.to_bits()), e.feature_distance.map(|v| v.to_bits()))).collect();
     ok.sort();
     let mut err = vec![];
@@ -196,7 +222,7 @@ fn run_query(env: &Env, sc: &Scenario, allow_abandon: bool) -> (RunOut, Vec<Snap
     }
     err.sort();
     let after = store_snaps(&st, sc.shards);
-    (RunOut { ok, err, bad_err: bad, store_after: after }, before, cand_snaps)
+    (RunOut { ok, err, bad_err: bad, store_after: after, ok_read, err_read }, before, cand_snaps)
 }
 
 fn judge(rep: &mut Report, idx: u64, sc: &Scenario, out: &RunOut, before: &[Snap], cands: &[Snap], sched: &str, ctx: &Value) -> bool {
@@ -207,13 +233,13 @@ fn judge(rep: &mut Report, idx: u64, sc: &Scenario, out: &RunOut, before: &[Snap
         rep.violation(&format!("C10/{}/self-pair", kind), idx, json!({"ctx": ctx, "schedule": sched}));
         good = false;
     }
-    if out.ok != rok {
+    if out.ok_read && out.ok != rok {
         let what = if out.ok.len() < rok.len() { "results-missing" } else if out.ok.len() > rok.len() { "results-extra" } else { "results-differ" };
         rep.violation(&format!("C10/{}/{}", kind, what), idx, json!({"ctx": ctx, "schedule": sched, "lib_count": out.ok.len(), "reference_count": rok.len(),
             "missing": rok.iter().filter(|r| !out.ok.contains(r)).take(6).collect::<Vec<_>>(), "extra": out.ok.iter().filter(|r| !rok.contains(r)).take(6).collect::<Vec<_>>()}));
         good = false;
     }
-    if out.err != rerr || out.bad_err.is_some() {
+    if out.err_read && (out.err != rerr || out.bad_err.is_some()) {
         rep.violation(&format!("C10/{}/error-stream", kind), idx, json!({"ctx": ctx, "schedule": sched, "lib": out.err, "reference": rerr, "bad": out.bad_err}));
         good = false;
     }
@@ -227,7 +253,7 @@ fn judge(rep: &mut Report, idx: u64, sc: &Scenario, out: &RunOut, before: &[Snap
 fn main() {
     let cli = Cli::parse();
     let mut rep = Report::new("C10", &cli);
-    rep.note("rule", json!("scenario = store of 0..12 tracks (0..3 observations in 0..2 classes, mixed compatibility classes and statuses) on 1..4 shards + candidate batch of 1..4 tracks (foreign, some with ids that also exist in the store; or owned ids incl. ids that are not stored), feature class possibly absent, both only_baked settings, results read through all() or into_iter(); in 15% of the scenarios the same query is first issued and abandoned (result objects dropped after 0..3 elements). Reference: enumeration over the pre-query store contents (all stored tracks != candidate, compatible, Ready when only_baked, one element per observation pair with a metric value; (from,to,class) errors when a class is missing). Schedules: small scenarios (<= 3 shards x <= 2 candidates) are driven through EVERY order of worker commands (and for owned queries every position of the caller's step) by gate scripts at the guarded schedule points; larger ones run under seeded random delay plans. Non-trivial: reference multiset has >= 2 results from >= 2 shards; distinct by scenario hash."));
+    rep.note("rule", json!("scenario = store of 0..12 tracks (0..3 observations in 0..2 classes, mixed compatibility classes and statuses) on 1..4 shards + candidate batch of 1..4 tracks (foreign, some with ids that also exist in the store; or owned ids incl. ids that are not stored), feature class possibly absent, both only_baked settings, results read through all() or into_iter(), ok stream first / error stream first / one of the two dropped unread; in 15% of the scenarios the same query is first issued and abandoned (result objects dropped after 0..3 elements). Reference: enumeration over the pre-query store contents (all stored tracks != candidate, compatible, Ready when only_baked, one element per observation pair with a metric value; (from,to,class) errors when a class is missing). Schedules: small scenarios (<= 3 shards x <= 2 candidates) are driven through EVERY order of worker commands (and for owned queries every position of the caller's step) by gate scripts at the guarded schedule points; larger ones run under seeded random delay plans. Non-trivial: reference multiset has >= 2 results from >= 2 shards; distinct by scenario hash."));
     rep.note("assumptions", json!(["commands of one worker are executed in submission order (crossbeam FIFO)", "a gate script that cannot make progress for 10 s is abandoned and the run counted as stalled (never a violation)"]));
     let env = Env { plan: FaultPlan::new(), notif: CountingNotifier::default() };
     let ctl = Controller::install();
